@@ -94,7 +94,12 @@ static std::vector<uint8_t> run_call(int kind, uint64_t dseed) {
   const unsigned sb = (unsigned)((40 - (int)log2((double)n)) / 2);
   switch (kind) {
     case K_ADD: { int64_t *a = ints(2 * n, 60), *b = ints(3 * n, 60), *res = (int64_t*)xalloc(3 * n * 8); vec_znx_add(S.fft64, res, 3, n, a, 2, n, b, 3, n); grab(res, 3 * n * 8); free(a); free(b); free(res); break; }
-    case K_ROTATE: { int64_t *a = ints(2 * n, 60), *res = (int64_t*)xalloc(2 * n * 8); vec_znx_rotate(S.fft64, (int64_t)(r.next() >> 3), res, 2, n, a, 2, n); grab(res, 2 * n * 8); free(a); free(res); break; }
+    case K_ROTATE: {
+      int64_t *a = ints(2 * n, 60), *res = (int64_t*)xalloc(2 * n * 8);
+      const int64_t p = (int64_t)(r.next() >> 3);
+      if (r.next() & 1) { memcpy(res, a, 2 * n * 8); vec_znx_rotate(S.fft64, p, res, 2, n, res, 2, n); }  // in place (the library's own private-scratch path)
+      else vec_znx_rotate(S.fft64, p, res, 2, n, a, 2, n);
+      grab(res, 2 * n * 8); free(a); free(res); break; }
     case K_AUTOMORPHISM: { int64_t* a = ints(2 * n, 60); vec_znx_automorphism(S.fft64, (int64_t)(r.next() >> 3) | 1, a, 2, n, a, 2, n); grab(a, 2 * n * 8); free(a); break; }
     case K_NORMALIZE: case K_BIG_NORMALIZE: {
       int64_t *a = ints(3 * n, 62), *res = (int64_t*)xalloc(3 * n * 8);
@@ -275,9 +280,11 @@ int main(int argc, char** argv) {
   const int pool = mode ? NKIND : NTABLE;
   int hot = (int)r.below(pool);
   if (getenv("VERIF_C12_HOT")) hot = atoi(getenv("VERIF_C12_HOT")) % pool;  // debugging aid: force the kind every thread starts with
+  const bool all_hot = argc > 6 && atoi(argv[6]) >= 0;  // descriptor field "hot": every thread starts with that entry point, two calls in three use it
+  if (all_hot) hot = atoi(argv[6]) % pool;
   for (int t = 0; t < T; ++t)
     for (int c = 0; c < ncalls; ++c) {
-      int kind = (c == 0 && t < 2) || r.below(3) == 0 ? hot : (int)r.below(pool);
+      int kind = (c == 0 && (t < 2 || all_hot)) || r.below(3) < (all_hot ? 2u : 1u) ? hot : (int)r.below(pool);
       prog[t].push_back({kind, r.next(), {}});
     }
   // shared objects (creation is sequential and happens-before thread start: that is the documented usage)
